@@ -21,7 +21,9 @@ Known == {"nl.bsn", "nl.onderwijsnummer", "pl.nip", "pl.regon", "pt.nif", "dk.cv
           "kr.brn", "me.pib", "mk.edb", "nz.ird", "pe.ruc", "py.ruc", "rs.pib", "tr.vkn", "ua.edrpou", "uy.rut", "ve.rif",
           "vn.mst", "za.tin", "th.pin", "lt.pvm", "fi.veronumero", "eg.tn", "ma.ice",
           "es.nie", "es.cif", "gb.vat", "fr.tva", "ie.pps", "cr.cpf", "cr.cpj", "do.rnc", "fi.associationid", "fr.siret", "in_.pan",
-          "ke.pin", "li.peid", "md.idno", "nl.btw", "no.mva"}
+          "ke.pin", "li.peid", "md.idno", "nl.btw", "no.mva",
+          "ar.dni", "ar.cbu", "at.businessid", "at.vnr", "br.cnpj", "ca.bn", "ca.bc_phn", "ch.esr", "ch.vat", "cn.uscc", "cr.cr",
+          "de.idnr", "de.wkn", "dz.nif", "eu.banknote", "eu.eic", "fo.vn"}
 (* formats with further rules (dates, ranges) that are not transcribed: the checksum is only a NECESSARY condition *)
 Necessary == {"no.fodselsnummer", "fi.hetu", "ch.ssn", "lv.pvn", "pl.pesel", "ee.ik"}
 
@@ -43,6 +45,11 @@ IeLetterVal(ch) == IF ch = 87 THEN 0 ELSE ch - 64
 FrAlpha(ch) == (ch \in 48..57) \/ (ch \in 65..90 /\ ch \notin {73, 79})
 FrIdx(ch) == IF ch <= 57 THEN ch - 48 ELSE 10 + (ch - 65) - (IF ch > 73 THEN 1 ELSE 0) - (IF ch > 79 THEN 1 ELSE 0)
 DigitTotal(c) == Sum(LAMBDA i : D(c[i]), Len(c))
+ChUidOk(c) == /\ Len(c) = 12 /\ SubSeq(c, 1, 3) = <<67, 72, 69>> /\ IsDigits(SubSeq(c, 4, 12))
+              /\ LET d == SubSeq(c, 4, 12)  r == (11 - (W(d, <<5, 4, 3, 2, 7, 6, 5, 4>>) % 11)) % 11 IN r = D(d[9])
+Count(ch, c) == Cardinality({i \in 1..Len(c) : c[i] = ch})
+UsccAlphabet == <<48, 49, 50, 51, 52, 53, 54, 55, 56, 57, 65, 66, 67, 68, 69, 70, 71, 72, 74, 75, 76, 77, 78, 80, 81, 82, 84, 85, 87, 88, 89>>
+EicVal(ch) == IF ch = 45 THEN 36 ELSE IF ch <= 57 THEN ch - 48 ELSE ch - 55
 EstonianCheck(c, n) ==        \* check digit over the first n digits: weights 1,2,..,9,1,.. and, when that gives 10, 3,4,..,9,1,2,..
   LET s1 == Sum(LAMBDA i : (((i - 1) % 9) + 1) * D(c[i]), n) % 11
       s2 == Sum(LAMBDA i : (((i + 1) % 9) + 1) * D(c[i]), n) % 11
@@ -228,6 +235,44 @@ AcceptN(m, c) ==
                        /\ IsDigits(SubSeq(c, 11, 12)) /\ ~AllZero(SubSeq(c, 11, 12))
                        /\ (BsnOk(SubSeq(c, 1, 9)) \/ Mod97Alnum(<<78, 76>> \o c) = 1)
     [] m = "no.mva" -> Len(c) = 12 /\ SubSeq(c, 10, 12) = <<77, 86, 65>> /\ OrgnrOk(SubSeq(c, 1, 9))
+    [] m = "ar.dni" -> IsDigits(c) /\ Len(c) \in {7, 8}
+    [] m = "ar.cbu" -> /\ Len(c) = 22 /\ IsDigits(c)
+                       /\ (10 - (WRev(c, 7, <<3, 1, 7, 9, 3, 1, 7>>) % 10)) % 10 = D(c[8])
+                       /\ (10 - (WRev(SubSeq(c, 9, 21), 13, <<3, 1, 7, 9, 3, 1, 7, 9, 3, 1, 7, 9, 3>>) % 10)) % 10 = D(c[22])
+    [] m = "at.businessid" -> Len(c) >= 2 /\ IsDigits(SubSeq(c, 1, Len(c) - 1)) /\ c[Len(c)] \in 97..122
+    [] m = "at.vnr" -> Len(c) = 10 /\ IsDigits(c) /\ c[1] # 48 /\ W(c, <<3, 7, 9, 0, 5, 8, 4, 2, 1, 6>>) % 11 = D(c[4])
+    [] m = "br.cnpj" -> /\ Len(c) = 14 /\ IsDigits(c) /\ ~AllZero(c)
+                        /\ LET d1 == ((11 - (W(c, <<5, 4, 3, 2, 9, 8, 7, 6, 5, 4, 3, 2>>) % 11)) % 11) % 10
+                               d2 == ((11 - ((W(c, <<6, 5, 4, 3, 2, 9, 8, 7, 6, 5, 4, 3>>) + 2 * d1) % 11)) % 11) % 10
+                           IN d1 = D(c[13]) /\ d2 = D(c[14])
+    [] m = "ca.bn" -> /\ Len(c) \in {9, 15} /\ IsDigits(SubSeq(c, 1, 9)) /\ LuhnSum(SubSeq(c, 1, 9)) % 10 = 0
+                      /\ (Len(c) = 15 => (c[10] = 82 /\ c[11] \in {67, 77, 80, 84} /\ IsDigits(SubSeq(c, 12, 15))))
+    [] m = "ca.bc_phn" -> /\ Len(c) = 10 /\ IsDigits(c) /\ c[1] = 57
+                          /\ LET w == <<2, 4, 8, 5, 10, 9, 7, 3>>  s == Sum(LAMBDA i : (w[i] * D(c[i + 1])) % 11, 8)
+                             IN (11 - (s % 11)) % 11 = D(c[10])
+    [] m = "ch.esr" -> /\ Len(c) >= 1 /\ Len(c) <= 27 /\ IsDigits(c)
+                       /\ LET T == <<0, 9, 4, 6, 8, 2, 7, 1, 3, 5>>
+                              carry == FoldLeft(LAMBDA q, ch : T[((D(ch) + q) % 10) + 1], 0, SubSeq(c, 1, Len(c) - 1))
+                          IN (10 - carry) % 10 = D(c[Len(c)])
+    [] m = "ch.vat" -> /\ Len(c) \in {15, 16} /\ ChUidOk(SubSeq(c, 1, 12))
+                       /\ SubSeq(c, 13, Len(c)) \in {<<77, 87, 83, 84>>, <<84, 86, 65>>, <<73, 86, 65>>, <<84, 80, 86>>}
+    [] m = "cn.uscc" -> /\ Len(c) = 18 /\ IsDigits(SubSeq(c, 1, 8)) /\ (\A i \in 9..18 : In(c[i], UsccAlphabet))
+                        /\ LET w == <<1, 3, 9, 27, 19, 26, 16, 17, 20, 29, 25, 13, 8, 24, 10, 30, 28>>
+                               t == Sum(LAMBDA i : (IndexIn(c[i], UsccAlphabet) - 1) * w[i], 17)
+                           IN c[18] = UsccAlphabet[((31 - (t % 31)) % 31) + 1]
+    [] m = "cr.cr" -> Len(c) \in {11, 12} /\ IsDigits(c) /\ c[1] = 49
+    [] m = "de.idnr" -> /\ Len(c) = 11 /\ IsDigits(c) /\ c[1] # 48 /\ Iso1110(c) = 1
+                        /\ LET f == SubSeq(c, 1, 10)  rep == {d \in 48..57 : Count(d, f) > 1}
+                           IN Cardinality(rep) = 1 /\ (\A d \in rep : Count(d, f) \in {2, 3})
+    [] m = "de.wkn" -> Len(c) = 6 /\ (\A i \in 1..6 : (c[i] \in 48..57) \/ (c[i] \in 65..90 /\ c[i] \notin {73, 79}))
+    [] m = "dz.nif" -> IsDigits(c) /\ Len(c) \in {15, 20}
+    [] m = "eu.banknote" -> /\ Len(c) = 12 /\ (\A i \in 1..2 : (c[i] \in 48..57) \/ (c[i] \in 65..90)) /\ IsDigits(SubSeq(c, 3, 12))
+                            /\ In(c[1], <<66, 67, 68, 69, 70, 71, 72, 74, 76, 77, 78, 80, 82, 83, 84, 85, 86, 87, 88, 89, 90>>)
+                            /\ Sum(LAMBDA i : IF c[i] <= 57 THEN D(c[i]) ELSE c[i], 12) % 9 = 0
+    [] m = "eu.eic" -> /\ Len(c) = 16 /\ (\A i \in 1..16 : (c[i] \in 48..57) \/ (c[i] \in 65..90) \/ c[i] = 45) /\ c[16] # 45
+                       /\ LET t == Sum(LAMBDA i : (17 - i) * EicVal(c[i]), 15)  k == 36 - ((t + 36) % 37)
+                          IN EicVal(c[16]) = k
+    [] m = "fo.vn" -> Len(c) = 6 /\ IsDigits(c)
 
 (* checksum parts of formats with further rules *)
 NecessaryN(m, c) ==
